@@ -537,6 +537,70 @@ def prop_valid(case):
 
 
 # ------------------------------------------------------------------------------------------
+# extra engine (thorough tier only): atheris through hypothesis.fuzz_one_input on the same grammar
+
+
+def fuzz_custom(tier: str, seed: int):
+    import json
+    import os
+    import random
+    import subprocess
+    import sys
+    import tempfile
+    from collections import Counter
+
+    from vlib.core import ShardResult
+
+    res = ShardResult()
+    if tier != "thorough":
+        res.extra["skipped"] = "atheris engine runs in the thorough tier only"
+        return res
+    scale = float(os.environ.get("VERIF_SCALE", "1"))
+    nproc, runs = 12, max(50, int(600 * scale))
+    with tempfile.TemporaryDirectory(prefix="c20_fuzz_") as tmp:
+        procs = []
+        for k in range(nproc):
+            corpus = os.path.join(tmp, f"corpus{k}")
+            os.mkdir(corpus)
+            rnd = random.Random(seed * 1000 + k)
+            for i in range(48):
+                with open(os.path.join(corpus, f"seed{i:02d}"), "wb") as f:
+                    f.write(rnd.randbytes(2048))
+            out = os.path.join(tmp, f"out{k}.json")
+            cmd = [sys.executable, "-m", "vlib.oracle.c20_fuzz", "--runs", str(runs), "--seed", str(seed % 2**31 + k),
+                   "--out", out, "--corpus", corpus]
+            procs.append((out, subprocess.Popen(cmd, stdout=subprocess.DEVNULL, stderr=subprocess.DEVNULL, cwd=tmp)))
+        for out, pr in procs:
+            pr.wait()
+            if not os.path.exists(out):
+                res.errors.append({"sub": "fuzz", "traceback": f"fuzz process wrote no result (exit {pr.returncode})", "case": None})
+                continue
+            r = json.load(open(out))
+            res.evaluations += r["evaluations"]
+            res.discards.update(r["discards"])
+            res.tags.update(r["tags"])
+            res.failure_counts.update(Counter(r["failure_counts"]))
+            for f in r["failures"]:
+                f["sub"] = "fuzz"  # replay: prop_fuzz_replay runs all mutation sub-checks on the case
+                res.failures.append(f)
+            res.errors.extend(r["errors"][:1])
+            res.wall += r["wall"]
+    res.extra["engine"] = f"atheris {nproc} processes x {runs} runs, instrumented glotaran.model + glotaran.builtin.megacomplexes"
+    return res
+
+
+def prop_fuzz_replay(case):
+    """Replay entry for cases found by the fuzz engine: all mutation sub-checks on one case."""
+    out = None
+    for fn in (prop_item_refs, prop_dataset_megacomplex, prop_dataset_group, prop_param_refs, prop_unique_exclusive):
+        try:
+            out = fn(case)
+        except Discard:
+            pass
+    return out
+
+
+# ------------------------------------------------------------------------------------------
 # oracle self-check: the position enumerator on a hand-counted specification
 
 
@@ -611,6 +675,8 @@ PROPERTY = Property(
             doc="every parameter reference renamed in turn, every referenced parameter removed in turn"),
         Sub("uniq", prop=prop_unique_exclusive, strategy=lambda: G.models(), budget={"quick": 240, "thorough": 20000},
             doc="unique megacomplexes duplicated (same label / sibling of the same type), exclusive ones combined"),
+        Sub("fuzz", prop=prop_fuzz_replay, custom=fuzz_custom,
+            doc="thorough tier only: atheris (coverage-guided) via hypothesis.fuzz_one_input on the grammar, all mutation sub-checks"),
     ],
     assumptions=[
         "the reference table REFS (type annotations of the documented item classes) is the specification of what is a reference",
